@@ -235,12 +235,16 @@ func init() {
 		}
 		panic(engineError{"timer was not created by NewTimer/AfterFunc/NewTicker in this path"})
 	}
-	mkTimer := func(ex *Exec, fn *ssa.Function, ticker bool, f value) (*value, *timerObj) {
+	mkTimer := func(ex *Exec, fn *ssa.Function, ticker bool, f value, d value) (*value, *timerObj) {
 		ptr := fn.Signature.Results().At(0).Type().(*types.Pointer)
 		stT := ptr.Elem()
 		st := ex.zero(stT).(structure)
 		ct := stT.Underlying().(*types.Struct).Field(0).Type().Underlying().(*types.Chan)
 		t := ex.sched.newTimer(ct.Elem(), true, ticker, f)
+		ex.sched.arm(t, durationOf(d))
+		if ticker {
+			t.period = durationOf(d)
+		}
 		if t.c != nil {
 			st[0] = t.c
 		}
@@ -253,21 +257,21 @@ func init() {
 		if ex.sched == nil {
 			return needSched("time.NewTimer")(ex, fr, fn, a)
 		}
-		p, _ := mkTimer(ex, fn, false, nil)
+		p, _ := mkTimer(ex, fn, false, nil, a[0])
 		return p
 	}
 	intrinsics["time.NewTicker"] = func(ex *Exec, fr *frame, fn *ssa.Function, a []value) value {
 		if ex.sched == nil {
 			return needSched("time.NewTicker")(ex, fr, fn, a)
 		}
-		p, _ := mkTimer(ex, fn, true, nil)
+		p, _ := mkTimer(ex, fn, true, nil, a[0])
 		return p
 	}
 	intrinsics["time.AfterFunc"] = func(ex *Exec, fr *frame, fn *ssa.Function, a []value) value {
 		if ex.sched == nil {
 			return needSched("time.AfterFunc")(ex, fr, fn, a)
 		}
-		p, _ := mkTimer(ex, fn, false, a[1])
+		p, _ := mkTimer(ex, fn, false, a[1], a[0])
 		return p
 	}
 	intrinsics["time.After"] = func(ex *Exec, fr *frame, fn *ssa.Function, a []value) value {
@@ -276,6 +280,7 @@ func init() {
 		}
 		ct := fn.Signature.Results().At(0).Type().Underlying().(*types.Chan)
 		t := ex.sched.newTimer(ct.Elem(), true, false, nil)
+		ex.sched.arm(t, durationOf(a[0]))
 		return t.c
 	}
 	intrinsics["time.Tick"] = func(ex *Exec, fr *frame, fn *ssa.Function, a []value) value {
@@ -284,6 +289,8 @@ func init() {
 		}
 		ct := fn.Signature.Results().At(0).Type().Underlying().(*types.Chan)
 		t := ex.sched.newTimer(ct.Elem(), true, true, nil)
+		ex.sched.arm(t, durationOf(a[0]))
+		t.period = durationOf(a[0])
 		return t.c
 	}
 	stop := func(ex *Exec, fr *frame, fn *ssa.Function, a []value) value {
@@ -300,14 +307,15 @@ func init() {
 		t := timerOf(ex, a[0].(*value))
 		ex.sched.point("timer reset")
 		pending := ex.sched.stopTimer(t)
-		t.armed = true
+		ex.sched.arm(t, durationOf(a[1]))
 		return ex.tt.Bool(pending)
 	}
 	intrinsics["(*time.Ticker).Reset"] = func(ex *Exec, fr *frame, fn *ssa.Function, a []value) value {
 		t := timerOf(ex, a[0].(*value))
 		ex.sched.point("ticker reset")
 		ex.sched.stopTimer(t)
-		t.armed = true
+		ex.sched.arm(t, durationOf(a[1]))
+		t.period = durationOf(a[1])
 		return nil
 	}
 	wrap("time.Sleep", func(old intrinsic) intrinsic {
@@ -317,6 +325,7 @@ func init() {
 			}
 			// sleeping = waiting on a private one-shot timer
 			t := ex.sched.newTimer(types.Typ[types.Bool], true, false, nil)
+			ex.sched.arm(t, durationOf(a[0]))
 			ex.sched.point("sleep")
 			ex.doRecv(t.c)
 			return nil
@@ -365,4 +374,26 @@ func init() {
 		ex.pools[p] = append(ex.pools[p], a[1])
 		return nil
 	}
+}
+
+// Logical clock in scheduled mode (advances when timers fire).
+func init() {
+	const base = 1700000000
+	wrapClock := func(name string, f func(ex *Exec, now int64) value) {
+		old := intrinsics[name]
+		intrinsics[name] = func(ex *Exec, fr *frame, fn *ssa.Function, a []value) value {
+			if ex.sched == nil {
+				return old(ex, fr, fn, a)
+			}
+			return f(ex, ex.sched.now)
+		}
+	}
+	wrapClock("time.runtimeNano", func(ex *Exec, now int64) value { return ex.tt.Const(64, uint64(1+now)) })
+	wrapClock("runtime.nanotime", func(ex *Exec, now int64) value { return ex.tt.Const(64, uint64(1+now)) })
+	clock := func(ex *Exec, now int64) value {
+		return tuple{ex.tt.Const(64, uint64(base+now/1000000000)), ex.tt.Const(32, uint64(now%1000000000)), ex.tt.Const(64, uint64(1+now))}
+	}
+	wrapClock("time.runtimeNow", clock)
+	wrapClock("time.now", clock)
+	intrinsics["time.runtimeIsBubbled"] = func(ex *Exec, fr *frame, fn *ssa.Function, a []value) value { return ex.tt.False }
 }
